@@ -108,7 +108,38 @@ def match_f45(f: Failure) -> bool:
 
 
 # F45 (osm tags with translated labels) is repaired (eb9b6f4): no matcher, a recurrence is a VIOLATION.
-MATCHERS = {}
+def match_f60(f: Failure) -> bool:
+    """Every dangling id is the value of a choices cell in a column literally named `itextId`."""
+    if f.kind != "dangling-ref":
+        return False
+    bad = set(f.extra.get("dangling", []))
+    vals = {str(r["itextId"]).strip() for r in f.case["form"].get("choices") or [] if r.get("itextId") not in (None, "")}
+    return bool(bad) and bad <= vals
+
+
+def quoted_search_list_ids(form) -> set[str]:
+    """`<list>-<idx>` for every choice of a list whose name contains a quote and which a search() select uses."""
+    out = set()
+    rows = form.get("choices") or []
+    for q in form.get("survey") or []:
+        ty = str(q.get("type", "")).split(" ")
+        if len(ty) >= 2 and ty[0] in ("select_one", "select_multiple") and "search(" in str(q.get("appearance", "")):
+            ln = ty[1]
+            if "'" in ln:
+                n = sum(1 for r in rows if str(r.get("list_name")) == ln)
+                out |= {f"{ln}-{i}" for i in range(n)}
+    return out
+
+
+def match_f61(f: Failure) -> bool:
+    """Every broken literal is the in-line item ref of a search() select on a list whose name contains a quote."""
+    if f.kind != "broken-ref-literal":
+        return False
+    bad = set(f.extra.get("broken", []))
+    return bool(bad) and bad <= quoted_search_list_ids(f.case["form"])
+
+
+MATCHERS = {"F60-choices-column-itextId": match_f60, "F61-quote-in-list-name-itext-ref": match_f61}
 
 
 # ------------------------------------------------------------------------------ one case
@@ -127,6 +158,11 @@ def oracle(ctx, case, obs):
         i is None for t in obs["translations"] for i in t["ids"]
     ):
         ctx.fail(Failure("malformed-itext", "more than one itext block / translation without lang / text without id", case))
+    # a jr:itext('id') literal is an XPath string literal: an id containing the quote cannot be written that way
+    broken = [i for i in obs["bodyRefs"] + obs["bindRefs"] if "'" in i]
+    if broken:
+        ctx.fail(Failure("broken-ref-literal", f"jr:itext('…') literal whose id contains a quote: {broken[:3]}", case,
+                         extra={"broken": broken}))
     if not v["refsExist"]:
         ctx.fail(Failure("dangling-ref", f"itext ids referenced but missing in some translation: {v['dangling'][:4]}",
                          case, extra={"dangling": v["dangling"]}))
@@ -311,6 +347,32 @@ def directed_cases(rng):
                         q[f"hint::{near}"] = "hn"
                     out.append({"form": {"survey": [{"type": "text", "name": "q0", f"label::{full}": "Q0"}, q],
                                          "settings": [{"default_language": dl}]}, "kw": {}})
+    # blank (whitespace-only) translations — dict / JSON input only: the only filled cell of a column for an element is
+    # blank, for every itext-producing cell kind, on questions, groups and choices
+    for kind in ("label", "hint", "guidance_hint", "constraint_message", "required_message", "image", "audio"):
+        for blank in (" ", "   "):
+            for where in ("question", "group", "choice"):
+                q = {"type": "integer", "name": "n", "label::en": "N", "constraint": ". > 0", "required": "yes"}
+                g = {"type": "begin group", "name": "g", "label::en": "G"}
+                ch = [{"list_name": "c", "name": "a", "label::en": "A"}, {"list_name": "c", "name": "b", "label::en": "B"}]
+                target = {"question": q, "group": g, "choice": ch[1]}[where]
+                if where == "choice" and kind not in ("label", "image", "audio"):
+                    continue
+                if kind == "label":
+                    target.pop("label::en", None)
+                target[f"{kind}::fr"] = blank
+                out.append({"form": {"survey": [g, q, {"type": "select_one c", "name": "s", "label::en": "S"},
+                                                {"type": "end group"}], "choices": ch}, "kw": {}})
+    # F60 (open): an extra choices column literally named itextId; F61 (open): a quote in the name of a list used by a
+    # search() select — one directed case each, so that every run reports them
+    out.append({"form": {"survey": [{"type": "select_one c", "name": "q", "label::en": "Q"}],
+                         "choices": [{"list_name": "c", "name": "a", "label::en": "A", "itextId": "zzz"},
+                                     {"list_name": "c", "name": "b", "label::en": "B"}]}, "kw": {}})
+    out.append({"form": {"survey": [{"type": "select_one c", "name": "q", "label": "Q"}],
+                         "choices": [{"list_name": "c", "name": "a", "label": "A", "itextId": "zzz"}]}, "kw": {}})
+    out.append({"form": {"survey": [{"type": "select_one it's", "name": "q", "label": "Q", "appearance": "search('f')"}],
+                         "choices": [{"list_name": "it's", "name": "a", "label::en": "A"},
+                                     {"list_name": "it's", "name": "b", "label::en": "B"}]}, "kw": {}})
     # F45 (repaired, must stay repaired): osm question whose tags have translated labels
     for tagcols in (["label::en", "label::fr"], ["label::en"], ["label"]):
         tags = []
